@@ -179,7 +179,30 @@ class RealSingleton:
     for k in sc.info["lock_attrs"]:
       setattr(self.dec, k, R.LockProxy(d, "decorator.%s" % k))
     R.shared_attr(d, self.dec, "instance", "instance")
+    # locks made on demand: the attribute is shared, and the module's lock constructor hands out proxies in allocation order
+    self.patched = {}
+    lazy = sc.info.get("lazy_attrs") or []
+    for k in lazy:
+      R.shared_attr(d, self.dec, k, "decorator.%s" % k)
+    if lazy:
+      import threading
+      count = [0]
+
+      def make_lock(*a, **kw):
+        d.before("lock_alloc", "new")
+        i = count[0]
+        count[0] += 1
+        return R.LockProxy(d, "lazy_lock%d" % i)
+      for name, val in list(vars(sg).items()):
+        if val is threading.RLock or val is threading.Lock:
+          self.patched[name] = val
+          setattr(sg, name, make_lock)
+    self.sg = sg
     self.bodies = {t: self.body(t) for t in range(sc.info["nthreads"])}
+
+  def restore(self):
+    for name, val in self.patched.items():
+      setattr(self.sg, name, val)
 
   def body(self, t):
     def run():
@@ -194,6 +217,7 @@ def singleton_replay(sc, sysm, res, states, infos, loop):
   real.d.release_all()
   for t in threads.values():
     t.join(timeout=0.5)
+  real.restore()
   ids = {t: id(o) for t, o in real.results.items()}
   return {"matched": ok, "detail": detail, "real": {"objects_constructed": len(real.made), "distinct_objects_returned": len(set(ids.values())),
                                                    "callers_finished": sorted(real.results)}}
@@ -220,6 +244,7 @@ def singleton_differential(nthreads, n, seed=0):
     real.d.release_all()
     for t in threads.values():
       t.join(timeout=0.5)
+    real.restore()
     ops += len(triples(infos))
     model_distinct = len({st["res.%d" % t] for t in range(nthreads)})
     real_distinct = len({id(o) for o in real.results.values()})
@@ -625,6 +650,8 @@ class RealRegistry:
           self.results[t] = self.reg[arg]
         elif kind == "name_for":
           self.results[t] = self.reg.name_for_signal(arg)
+        elif kind == "attr":
+          self.results[t] = getattr(self.reg, arg)
         else:
           e = self.ev.Event(signal=arg)
           self.results[t] = (e.signal_name, e.signal)
